@@ -614,6 +614,32 @@ func (n *normalizer) inlineStmt(st ast.Stmt) ([]ast.Stmt, bool) {
 				return []ast.Stmt{outer}, true
 			}
 		}
+		// if a || h() { S } else { T }   and   if a && h() { S } else { T }: the helper call is evaluated conditionally.
+		// The decision is computed into a flag with the same short-circuit order, so that the call becomes a statement:
+		//     run := false; if a { run = true } else { t := h(); if t { run = true } };  if run { S } else { T }
+		//     run := false; if a { t := h(); if t { run = true } };                      if run { S } else { T }
+		if s.Init == nil {
+			if be, isBin := ast.Unparen(s.Cond).(*ast.BinaryExpr); isBin && (be.Op == token.LOR || be.Op == token.LAND) && n.hasInlinableCall(be.Y) {
+				run, t := n.fresh("run"), n.fresh("t")
+				setRun := func() ast.Stmt {
+					return &ast.AssignStmt{Lhs: []ast.Expr{ast.NewIdent(run)}, Tok: token.ASSIGN, Rhs: []ast.Expr{ast.NewIdent("true")}}
+				}
+				second := []ast.Stmt{
+					&ast.AssignStmt{Lhs: []ast.Expr{ast.NewIdent(t)}, Tok: token.DEFINE, Rhs: []ast.Expr{be.Y}},
+					&ast.IfStmt{Cond: ast.NewIdent(t), Body: &ast.BlockStmt{List: []ast.Stmt{setRun()}}},
+				}
+				var first ast.Stmt
+				if be.Op == token.LOR {
+					first = &ast.IfStmt{Cond: be.X, Body: &ast.BlockStmt{List: []ast.Stmt{setRun()}}, Else: &ast.BlockStmt{List: second}}
+				} else {
+					first = &ast.IfStmt{Cond: be.X, Body: &ast.BlockStmt{List: second}}
+				}
+				s2 := *s
+				s2.Cond = ast.NewIdent(run)
+				decl := &ast.AssignStmt{Lhs: []ast.Expr{ast.NewIdent(run)}, Tok: token.DEFINE, Rhs: []ast.Expr{ast.NewIdent("false")}}
+				return []ast.Stmt{&ast.BlockStmt{List: []ast.Stmt{decl, first, &s2}}}, true
+			}
+		}
 		return nil, false
 	}
 	if call != nil {
